@@ -114,6 +114,12 @@ def crossCheck (s : List Char) (games : List Game) : Bool :=
   if !plain then true else
   let tk : List (Tk (List Char)) := toks.filterMap fun t =>
     if t.ty == .symbol then some (Tk.sym t.s) else if t.ty == .lparen then some Tk.lp else if t.ty == .rparen then some Tk.rp else none
+  -- a variation that starts before any move of its line (`( (` or a leading `(`) is outside the sublanguage
+  let isLp (t : Tk (List Char)) : Bool := match t with | Tk.lp => true | _ => false
+  let rec lpLp : List (Tk (List Char)) → Bool
+    | a :: b :: r => (isLp a && isLp b) || lpLp (b :: r)
+    | _ => false
+  if (tk.head?.map isLp).getD false || lpLp tk then true else
   let (kids, rest) := parseLine (tk.length + 1) tk
   match games with
   | [g] => if rest.isEmpty then treeEq kids (arenaTree g.arena (g.arena.size + 1) 0) else true
